@@ -23,6 +23,7 @@ fn scenario(name: &str, body: crate::rt::Body, check: Check, bound: usize) -> Sc
         shards: 1,
         nontrivial: true,
         unbounded: false,
+        loop_body: false,
     }
 }
 
